@@ -362,7 +362,7 @@ class C09(Prop):
         for i, r in enumerate(obs["runs"]):
             if r["ref"]["status"] == "build-error":
                 return "valid program rejected at construction"
-            if r["got"] != r["ref"]:
+            if impl.differ(r["got"], r["ref"]):
                 return f"run {i} with the shared cache returned {r['got']}, the uncached run returns {r['ref']}"
             if r["routes_got"] != r["routes_ref"] and False:
                 return f"run {i}: routing decisions differ with the cache"
